@@ -4,6 +4,7 @@ package main
 
 import (
 	"fmt"
+	"os"
 	"go/token"
 	"strings"
 
@@ -15,7 +16,8 @@ func init() {
 C18-a allocation: a device-derived make length whose type and constant operands allow more than 2^24 (16 MiB) must be bounded by a dominating comparison (directly, through its operands, or through validation at the store of the field it is loaded from).
 C18-b division: a device-derived divisor must be proven non-zero by a dominating comparison.
 C18-c chain walks / steps: a loop that advances through a slice by a device-derived step must have that step proven positive.
-Slice/index panics with device-derived bounds, decompression bombs and time bounds are not covered (about 340 such sites; see DESIGN.md).`)
+C18-e index: a device-derived value used as the index of a slice, array or string element (s[i], not s[a:b]) must be bounded: a dominating comparison with a value that is not itself unbounded device data (len(table), len(table)-1, a validated field), a mask/shift/narrow type that keeps it below the length of a fixed-size array, or the counter of a loop that appends to the indexed slice once per iteration before indexing it.
+Sub-slice expressions s[a:b] with device-derived bounds, decompression bombs and time bounds are not covered (see DESIGN.md).`)
 }
 
 // fsReaderScope: the package-internal functions reachable from the reading API of pkg, explored with the
@@ -51,13 +53,21 @@ func runC18(w *World, r *Report) {
 			r.Note("checksum-protected decoder (not a taint source under single-field corruption): %s", p)
 		}
 		sub := newReport("C18", r.Tier)
-		boundsReport(w, sub, b, "C18", map[string]bool{"make": true, "divide": true, "step": true})
+		kinds := map[string]bool{"make": true, "divide": true, "step": true, "index": true}
+		if os.Getenv("DFS_C18_SLICE") != "" {
+			kinds["slice"] = true
+		}
+		boundsReport(w, sub, b, "C18", kinds)
 		for _, o := range sub.Obls {
 			switch {
 			case strings.HasPrefix(o.Construct, "make"):
 				o.Rule = "C18-a"
 			case strings.HasPrefix(o.Construct, "divide"):
 				o.Rule = "C18-b"
+			case strings.HasPrefix(o.Construct, "index"):
+				o.Rule = "C18-e"
+			case strings.HasPrefix(o.Construct, "slice"):
+				o.Rule = "C18-f"
 			default:
 				o.Rule = "C18-c"
 			}
@@ -83,6 +93,7 @@ func runC18(w *World, r *Report) {
 	r.Floor("C18 scope", total, 150)
 	r.Floor("C18-a", r.countRule("C18-a"), 10)
 	r.Floor("C18-b", r.countRule("C18-b"), 5)
+	r.Floor("C18-e", r.countRule("C18-e"), 30)
 }
 
 // c18ChainWalks (C18-c): a loop that follows next-cluster links read from the FAT (the argument of
